@@ -339,7 +339,7 @@ pub fn run(args: &Args) {
             report.case(if nontrivial { Some(d.text.as_str()) } else { None }, &labels);
             report.label_n("literals-accepted", st.accepted as u64);
             report.label_n("literals-generated", d.literals.len() as u64);
-            report.sample(if st.nonascii_before_on_line { "non-ascii-on-line" } else { "plain" }, 2, || to_json(&c));
+            crate::sample(&report, if st.nonascii_before_on_line { "non-ascii-on-line" } else { "plain" }, 2, || to_json(&c));
             Ok(())
         },
         |(d, _)| to_json(&case_of(d)),
